@@ -50,6 +50,12 @@
                                           without ID string / entity, on a sensor that flags "reading/state
                                           unavailable", on non-linear sensors outside the domain of their
                                           function
+  * `sensor_reads_today`, `sdr_show_full_reads_owner_lun`, `sensor_reads_match_api_twin`,
+    `sensor_reads_only_sensor_records`, `sdr_list_and_compact_read_lun0`, `sensor_request_is_get_sensor_reading`
+    (+ `dropped_owner_lun_counterexample`) which sensor - responder LUN and number - `sdr list` / `sdr show` /
+                                          `sdr showall` read for a full / compact sensor record: today's
+                                          `get_sensor_reading` calls ARE the intended ones (full branch of
+                                          `sdr show`: the record's owner LUN; the others: LUN 0, an observation)
 -/
 import PyIpmi.Lemmas.Cli
 import PyIpmi.Lemmas.CliInt
@@ -491,6 +497,79 @@ theorem sensor_values_asShipped_counterexample :
     ∧ cellRaises (catchOf AsShipped.handlers "sdr show") Spec.Cli.Lin.ln.code .zero = none := by
   decide +kernel
 
+/-! ### which sensor the printing commands read (owner LUN and number) -/
+
+/-- TODAY's source reads sensors exactly as the intended table says: the `get_sensor_reading` calls that
+`sdr list`, `sdr show` and `sdr showall` reach (through `sdr_show` and any other helper), the record-type
+branch each sits in and its LUN argument - `sdr show` / `sdr showall` of a full sensor record pass
+`<rec>.owner_lun`, the other four pass none - and the API's default LUN is 0.  A dropped, added or changed LUN
+argument (a helper that takes "the majority form" included) stops the build here. -/
+theorem sensor_reads_today :
+    Gen.Cli.sensorReads = intendedSensorReads ∧ Gen.Cli.sensorReadDefaultLun = 0 := by decide +kernel
+
+/-- the model's request IS the specification's Get Sensor Reading (LUN, NetFn 04h, 2Dh + number) -/
+theorem sensor_request_is_get_sensor_reading (lun number : Nat) :
+    sensorReadingRequest lun number = Spec.Cli.getSensorReading lun number := rfl
+
+/-- `sdr show <id>` and `sdr showall`: for EVERY full sensor record - whatever its owner LUN and number - the
+tool sends Get Sensor Reading to the sensor the record names: responder LUN = sensor owner LUN (table 43-1
+byte 7 [1:0]), data = sensor number.  About today's source (`Gen.Cli.sensorReads`). -/
+theorem sdr_show_full_reads_owner_lun (cmd : String) (hc : cmd = "sdr show" ∨ cmd = "sdr showall")
+    (k : Spec.Cli.SensorKey) :
+    sensorReadOf Gen.Cli.sensorReads Gen.Cli.sensorReadDefaultLun cmd 0x01 k.ownerLun k.number
+      = some (Spec.Cli.readSensorOf k) := by
+  rw [sensor_reads_today.1, sensor_reads_today.2]
+  rcases hc with rfl | rfl <;> rfl
+
+/-- every sensor read of the three commands is the Get Sensor Reading of its API twin (`Spec.Cli.apiTwin`:
+`get_sensor_reading(number, owner_lun)` for the full branch of `sdr show` / `sdr showall`,
+`get_sensor_reading(number)` for the other four), for every record key -/
+theorem sensor_reads_match_api_twin (e : String × Nat × Spec.Cli.TwinLun) (he : e ∈ Spec.Cli.apiTwin)
+    (k : Spec.Cli.SensorKey) :
+    sensorReadOf Gen.Cli.sensorReads Gen.Cli.sensorReadDefaultLun e.1 e.2.1 k.ownerLun k.number
+      = some (Spec.Cli.twinRequest e.2.2 k) := by
+  rw [sensor_reads_today.1, sensor_reads_today.2]
+  simp only [Spec.Cli.apiTwin, List.mem_cons, List.not_mem_nil, or_false] at he
+  rcases he with rfl | rfl | rfl | rfl | rfl | rfl <;> rfl
+
+/-- … and a record of any other type makes none of them read a sensor -/
+theorem sensor_reads_only_sensor_records (cmd : String) (t : Nat) (ht : t ≠ 0x01 ∧ t ≠ 0x02) (l n : Nat) :
+    sensorReadOf Gen.Cli.sensorReads Gen.Cli.sensorReadDefaultLun cmd t l n = none := by
+  rw [sensor_reads_today.1]
+  have h1 : (1 == t) = false := by simpa using fun h : 1 = t => ht.1 h.symm
+  have h2 : (2 == t) = false := by simpa using fun h : 2 = t => ht.2 h.symm
+  simp [sensorReadOf, intendedSensorReads, List.find?, h1, h2]
+
+/-- OBSERVATION (DESIGN §9.7, kept out of the verdict), stated precisely: `sdr list` (full and compact) and the
+compact branch of `sdr show` / `sdr showall` send Get Sensor Reading to LUN 0 whatever the record says; that is
+the sensor the record names exactly when its owner LUN is 0. -/
+theorem sdr_list_and_compact_read_lun0 (cmd : String) (t : Nat)
+    (h : (cmd = "sdr list" ∧ (t = 0x01 ∨ t = 0x02)) ∨ ((cmd = "sdr show" ∨ cmd = "sdr showall") ∧ t = 0x02))
+    (k : Spec.Cli.SensorKey) :
+    sensorReadOf Gen.Cli.sensorReads Gen.Cli.sensorReadDefaultLun cmd t k.ownerLun k.number
+      = some (Spec.Cli.getSensorReading 0 k.number)
+    ∧ (Spec.Cli.getSensorReading 0 k.number = Spec.Cli.readSensorOf k ↔ k.ownerLun = 0) := by
+  rw [sensor_reads_today.1, sensor_reads_today.2]
+  refine ⟨?_, ?_⟩
+  · rcases h with ⟨rfl, rfl | rfl⟩ | ⟨rfl | rfl, rfl⟩ <;> rfl
+  · simp only [Spec.Cli.getSensorReading, Spec.Cli.readSensorOf, Prod.mk.injEq, and_true]
+    exact eq_comm
+
+/-- what losing the LUN argument means (the helper "of the majority form"): with `get_sensor_reading(s.number)`
+in the full branch of `sdr show`, the record of a sensor on owner LUN 1 makes the tool read ANOTHER sensor -
+the one with the same number on LUN 0 - and for every record with a non-zero owner LUN the request differs from
+the one that reads the record's sensor. -/
+theorem dropped_owner_lun_counterexample :
+    let dropped : List SensorRead := intendedSensorReads.map fun r => { r with lun := .default }
+    sensorReadOf dropped 0 "sdr show" 0x01 1 0x51 = some (Spec.Cli.getSensorReading 0 0x51)
+    ∧ ∀ k : Spec.Cli.SensorKey, k.ownerLun ≠ 0 →
+        sensorReadOf dropped 0 "sdr show" 0x01 k.ownerLun k.number ≠ some (Spec.Cli.readSensorOf k) := by
+  refine ⟨rfl, ?_⟩
+  intro k hk h
+  have h' : some (Spec.Cli.getSensorReading 0 k.number) = some (Spec.Cli.readSensorOf k) := h
+  simp only [Spec.Cli.getSensorReading, Spec.Cli.readSensorOf, Option.some.injEq, Prod.mk.injEq, and_true] at h'
+  exact hk h'.symm
+
 /-! ### non-vacuity: concrete, non-trivial objects meeting the hypotheses -/
 
 -- `-t 0x82 -Uadmin -v -t 0x20 chassis power cycle`
@@ -536,6 +615,12 @@ example : catchesArithmetic ["ValueError", "ArithmeticError"] = true
 example : sdrShowRaises ⟨true, true, true, true, []⟩ false false = none
     ∧ sdrShowRaises ⟨true, false, true, true, []⟩ false true = some "AttributeError"
     ∧ sdrStateRaises ⟨true, true, true, true, []⟩ false = none := by decide +kernel
+-- two sensors with the same number on different LUNs are different requests; a compact record reads LUN 0
+example : sensorReadOf intendedSensorReads 0 "sdr showall" 0x01 1 0x51 = some (1, 0x04, [0x2d, 0x51])
+    ∧ sensorReadOf intendedSensorReads 0 "sdr showall" 0x01 0 0x51 = some (0, 0x04, [0x2d, 0x51])
+    ∧ sensorReadOf intendedSensorReads 0 "sdr show" 0x02 3 0x08 = some (0, 0x04, [0x2d, 0x08])
+    ∧ sensorReadOf intendedSensorReads 0 "sdr list" 0x01 3 0x07 = some (0, 0x04, [0x2d, 0x07])
+    ∧ sensorReadOf intendedSensorReads 0 "sdr show" 0x12 0 0 = none := by decide +kernel
 -- a table with a shadowed entry is rejected by the side condition
 example : prefixFree [⟨ofString "bmc", [ofString "bmc"], 0, []⟩,
     ⟨ofString "bmc info", [ofString "bmc", ofString "info"], 0, []⟩] = false := by decide +kernel
